@@ -229,6 +229,17 @@ type c11aOp struct {
 	V      string   `json:"v,omitempty"`      // rev: real | genuine | forged | undecodable
 	Faults []string `json:"faults,omitempty"` // fault kind per delivery attempt ("" = none); the fault plan
 	Redo   int      `json:"redo,omitempty"`   // how many times the notifier gets to redeliver
+	T      string   `json:"t,omitempty"`      // verify: reference time (validAt / resolveTime), see c11aRefTimes; "" = nil
+	R      bool     `json:"r,omitempty"`      // verify: through vcr.Resolve(id, resolveTime) when the credential was delivered to the node
+}
+
+var c11aRefTimes = []string{"", "", "now", "issuance", "mid", "rev-10s", "rev-6s", "rev-4s", "rev", "rev+1s", "far-past", "far-future"}
+
+func c11aVerifyOp(t *rapid.T, op c11aOp) c11aOp {
+	op.K = "verify"
+	op.T = rapid.SampledFrom(c11aRefTimes).Draw(t, "refTime")
+	op.R = rapid.Bool().Draw(t, "viaResolve")
+	return op
 }
 
 type c11aCase struct {
@@ -260,7 +271,7 @@ func c11aGen(t *rapid.T) c11aCase {
 			fl, redo := plan(t)
 			return []c11aOp{{K: "vc", C: rapid.Uint32().Draw(t, "c"), Faults: fl, Redo: redo}}
 		case "verify":
-			return []c11aOp{{K: "verify", C: rapid.Uint32().Draw(t, "c")}}
+			return []c11aOp{c11aVerifyOp(t, c11aOp{C: rapid.Uint32().Draw(t, "c")})}
 		case "sc-fault":
 			// the store is busy for the first 1-3 attempts, the notifier keeps redelivering, then somebody verifies
 			n := rapid.IntRange(1, 3).Draw(t, "busy")
@@ -269,11 +280,11 @@ func c11aGen(t *rapid.T) c11aCase {
 				fl = append(fl, rapid.SampledFrom(c11aFaultKinds[:6]).Draw(t, "kind"))
 			}
 			sel := rapid.Uint32().Draw(t, "c")
-			return []c11aOp{{K: "rev", C: sel, V: rapid.SampledFrom([]string{"real", "genuine"}).Draw(t, "v"), Faults: fl, Redo: n + rapid.IntRange(0, 1).Draw(t, "extra")}, {K: "verify", C: sel}}
+			return []c11aOp{{K: "rev", C: sel, V: rapid.SampledFrom([]string{"real", "genuine"}).Draw(t, "v"), Faults: fl, Redo: n + rapid.IntRange(0, 1).Draw(t, "extra")}, c11aVerifyOp(t, c11aOp{C: sel})}
 		default: // sc-before: the revocation reaches the node before the credential does
 			fl, redo := plan(t)
 			return []c11aOp{{K: "issue", I: rapid.IntRange(0, 1).Draw(t, "i")}, {K: "rev", L: true, V: "real", Faults: fl, Redo: redo + len(fl)},
-				{K: "vc", L: true}, {K: "verify", L: true}}
+				{K: "vc", L: true}, c11aVerifyOp(t, c11aOp{L: true}), c11aVerifyOp(t, c11aOp{L: true})}
 		}
 	})
 	for _, st := range rapid.SliceOfN(step, 2, 10).Draw(t, "steps") {
@@ -286,9 +297,11 @@ func c11aGen(t *rapid.T) c11aCase {
 }
 
 type c11aCred struct {
-	vc       vc.VerifiableCredential
-	owner    int
-	realUsed bool
+	vc        vc.VerifiableCredential
+	owner     int
+	realUsed  bool
+	delivered bool        // the credential transaction went through handleNetworkVCs
+	revDates  []time.Time // dates stated by the revocations the node stored
 }
 
 type c11aRun struct {
@@ -372,7 +385,10 @@ func (r *c11aRun) opIssue(op c11aOp) {
 		Issuer:            f.dids[owner].URI(),
 		CredentialSubject: []any{map[string]any{"id": "did:nuts:C11ambHolder"}},
 	}
+	// issued 20 days ago, so that reference times between issuance and revocation exist
+	issuer.TimeFunc = func() time.Time { return time.Now().Add(-20 * 24 * time.Hour) }
 	cred, err := f.iss.Issue(f.ctx, tmpl, issuer.CredentialOptions{})
+	issuer.TimeFunc = time.Now
 	r.x.NoErr(err, "Issue")
 	r.creds = append(r.creds, &c11aCred{vc: *cred, owner: owner})
 }
@@ -421,6 +437,10 @@ func (r *c11aRun) opRev(op c11aOp) bool {
 	switch {
 	case genuine && outcome == "finished":
 		r.revoked[id.String()] = true
+		var rv credential.Revocation
+		if json.Unmarshal(payload, &rv) == nil {
+			c.revDates = append(c.revDates, rv.Date)
+		}
 		if transient > 0 {
 			x.Classf("amb:rev:accepted-after-%d-transient-failures", transient)
 		}
@@ -450,27 +470,93 @@ func (r *c11aRun) opVC(op c11aOp) {
 	if outcome == "dropped" && len(op.Faults) == 0 {
 		x.Violate("ambassador:genuine-credential-dropped", "credential %s was answered with a fatal error without any storage fault", c.vc.ID)
 	}
+	if outcome == "finished" {
+		c.delivered = true
+	}
 	if outcome == "finished" && r.revoked[c.vc.ID.String()] {
 		x.Class("amb:credential-arrived-after-its-revocation")
 	}
 	r.checkStore("after-vc")
 }
 
+func (r *c11aRun) refTime(c *c11aCred, kind string) *time.Time {
+	now := time.Now()
+	issued := c.vc.IssuanceDate
+	rev := now
+	for i, d := range c.revDates {
+		if i == 0 || d.Before(rev) {
+			rev = d
+		}
+	}
+	var t time.Time
+	switch kind {
+	case "":
+		return nil
+	case "now":
+		t = now
+	case "issuance":
+		t = issued
+	case "mid":
+		t = issued.Add(rev.Sub(issued) / 2)
+	case "rev-10s":
+		t = rev.Add(-10 * time.Second)
+	case "rev-6s":
+		t = rev.Add(-6 * time.Second)
+	case "rev-4s":
+		t = rev.Add(-4 * time.Second)
+	case "rev":
+		t = rev
+	case "rev+1s":
+		t = rev.Add(time.Second)
+	case "far-past":
+		t = issued.Add(-365 * 24 * time.Hour)
+	case "far-future":
+		t = now.Add(365 * 24 * time.Hour)
+	default:
+		r.x.Fatalf("unknown reference time %q", kind)
+	}
+	return &t
+}
+
+// opVerify: a verification that happens now, asked for any reference time, through Verifier.Verify or - when the
+// credential transaction was delivered to the node - through vcr.Resolve(id, resolveTime). Once the node stored the
+// revocation, it fails as revoked whatever the reference time, unless the credential is not valid then anyway.
 func (r *c11aRun) opVerify(op c11aOp) bool {
+	x := r.x
 	c := r.pick(op)
 	if c == nil {
 		return false
 	}
-	err := r.v.Verify(c.vc, true, true, nil)
+	at := r.refTime(c, op.T)
+	validThen := at == nil || !at.Before(c.vc.IssuanceDate)
+	how := "Verify"
+	var err error
+	if op.R && c.delivered {
+		how = "Resolve"
+		_, err = r.f.vcr.Resolve(*c.vc.ID, at)
+	} else {
+		err = r.v.Verify(c.vc, true, true, at)
+	}
+	isRevoked := errors.Is(err, types.ErrRevoked)
 	want := r.revoked[c.vc.ID.String()]
-	if got := errors.Is(err, types.ErrRevoked); got != want {
-		r.x.Violate(fmt.Sprintf("ambassador:verify:want-revoked=%v", want), "Verify(%s) = %v", c.vc.ID, err)
+	bucket := op.T
+	if bucket == "" {
+		bucket = "nil"
+	}
+	x.Classf("amb:verify:%s:ref=%s:revoked=%v", how, bucket, want)
+	switch {
+	case !validThen:
+		x.Class("amb:verify:reference-time-before-validity")
+	case want && !isRevoked:
+		x.Violate(fmt.Sprintf("ambassador:verify:want-revoked=true:%s:ref=%s", how, bucket), "%s(%s, %v) = %v although the node stored a revocation (dates %v)", how, c.vc.ID, at, err, c.revDates)
 		return true
+	case !want && isRevoked:
+		x.Violate(fmt.Sprintf("ambassador:verify:want-revoked=false:%s:ref=%s", how, bucket), "%s(%s, %v) = %v", how, c.vc.ID, at, err)
+		return true
+	case !want && err != nil:
+		x.Fatalf("credential that is not revoked failed %s at %v: %v", how, at, err)
 	}
-	if !want && err != nil {
-		r.x.Fatalf("credential that is not revoked failed verification: %v", err)
-	}
-	r.x.Classf("amb:verify:revoked=%v", want)
+	x.Classf("amb:verify:revoked=%v", want)
 	return true
 }
 
